@@ -135,7 +135,7 @@ def main():
         if any(v == "1" for v in exits.values()):
             verdict = "killed by " + ",".join(k for k, v in sorted(exits.items()) if v == "1")
             killed += 1
-        elif exits and all(v == "2" for v in exits.values()):
+        elif exits and any(v == "2" for v in exits.values()):     # no kill, and at least one configuration does not compile
             verdict = "does not build"
             broken += 1
         else:
